@@ -26,7 +26,16 @@ META = {
                   "(generators, driver canonicalisation, interning of hashable elements as integer codes); CPython's "
                   "heapq is modelled from Lib/heapq.py, dict/list semantics assumed. UnionFind.__setitem__ (overwriting a "
                   "stored element in place) is outside the operation set: the property is about add/union/find and "
-                  "the queries (len, in, uf[i], connected, component, roots, components, component_mapping).",
+                  "the queries (len, in, uf[i], connected, component, roots, components, component_mapping). "
+                  "Deliberately left free: the exception class and message of a refusal (find/component/connected of an absent "
+                  "element, uf[i] out of range, pop/get/front on an empty queue: any exception is accepted, for connected also the "
+                  "answer False, for component the empty answer, for an empty queue also None; what is required is that nothing "
+                  "changed, which the following counts/views/pops show); which representative find returns and which indices roots "
+                  "uses; the numbering of stored elements (uf[i] must be a stored element, one per index; a negative index may be "
+                  "refused or follow Python's convention); order inside and among the component listings; return values of "
+                  "add/union/push; the type of returned truth values/containers; which of several pending items of equal minimum "
+                  "priority is handed out; the heap layout and the content of PriorityQueue.data (recorded in replays only); extra "
+                  "attributes, warnings, repr.",
 }
 
 HEADER = """From Coq Require Import ZArith List Bool.
@@ -226,8 +235,11 @@ def gen_pq_history(rng, maxlen=40, ambient=True):
 
 
 # ---------------------------------------------------------------------- encoders (history + observation -> Gallina)
-def obs_term(o):
+def obs_term(o, op=None):
     k = o[0]
+    if k == "raised":
+        # a refusal of any exception class (uf[i]: OIndexError, element operations: OValueError)
+        return "OIndexError" if op and op[0] == "getitem" else "OValueError"
     if k == "none":
         return "ONone"
     if k == "valueerror":
@@ -258,7 +270,7 @@ def uf_case_term(case, obs, order=None):
     items = []
     for op, o in zip(case["ops"], obs):
         t = OPC[op[0]] + "".join(" " + zlit(a) for a in (op[1:2] if op[0] == "getitem" else op[1:]))
-        items.append("(%s, %s)" % (t if len(op) == 1 else "(" + t + ")", obs_term(o)))
+        items.append("(%s, %s)" % (t if len(op) == 1 else "(" + t + ")", obs_term(o, op)))
     return "(%s, %s)" % ("None" if order is None else "(Some %s)" % zlist(order), coq_list(items))
 
 
@@ -299,15 +311,15 @@ def pq_case_term(ops, obs):
             t = "Front"
         if o[0] == "none":
             w = "QNone"
-        elif o[0] == "indexerror":
-            w = "QIndexError"
+        elif o[0] in ("raised", "noitem"):
+            w = "QIndexError"   # no item handed out: an exception of any class, or None
         elif o[0] == "item":
             w = "(QItem %s %s)" % (zlit(o[1]), zlit(prio_z(o[2])))
         elif o[0] == "bool":
             w = "(QBool %s)" % coq_bool(o[1])
         else:
             w = "QOther"
-        d = coq_list(["(%s, %s)" % (zlit(prio_z(p)), zlit(x)) for x, p in data])
+        d = "[]"   # the `data` attribute is recorded in replays for information only: the text does not constrain it
         items.append("(%s, %s, %s)" % (t, w, d))
     return coq_list(items)
 
@@ -337,9 +349,11 @@ def oracle_uf(case, obs, order=None):
         for a in order:   # the constructor adds each element; duplicates are no-ops
             ensure(a)
 
+    slot = {}   # uf[i] answers seen so far: index -> element (the numbering of the stored elements is free)
     for k, (op, o) in enumerate(zip(case["ops"], obs)):
         nm, args = op[0], op[1:]
         want = None
+        refused = o[0] == "raised"   # an exception of ANY class; legitimate or not is decided from the input below
         if nm == "add":
             ensure(args[0])
             want = ["none"]
@@ -352,7 +366,10 @@ def oracle_uf(case, obs, order=None):
             want = ["none"]
         elif nm in ("find", "component"):
             if args[0] not in comp:
-                want = ["valueerror"]
+                # absent element: the text does not speak about it; a refusal, or (component) the empty answer
+                if refused or (nm == "component" and o == ["set", []]):
+                    continue
+                return "op %d %s of an absent element answered %s" % (k, op, o)
             elif nm == "component":
                 want = ["set", sorted(comp[args[0]])]
             else:
@@ -361,7 +378,10 @@ def oracle_uf(case, obs, order=None):
                 continue
         elif nm == "connected":
             if args[0] not in comp or args[1] not in comp:
-                want = ["valueerror"]
+                # an absent element is joined to nothing: a refusal or the answer False
+                if refused or o == ["bool", False]:
+                    continue
+                return "op %d %s with an absent element answered %s" % (k, op, o)
             else:
                 want = ["bool", comp[args[0]] == comp[args[1]]]
         elif nm == "roots":
@@ -380,8 +400,18 @@ def oracle_uf(case, obs, order=None):
         elif nm == "contains":
             want = ["bool", args[0] in comp]
         elif nm == "getitem":
-            order = list(comp)
-            want = ["elt", order[args[0]]] if 0 <= args[0] < len(order) else ["indexerror"]
+            i, n = args[0], len(comp)
+            if i >= n or i < -n:
+                if refused:
+                    continue
+                return "op %d uf[%d] with %d elements answered %s" % (k, i, n, o)
+            if i < 0 and refused:
+                continue   # negative indices: refused, or Python's convention
+            j = i % n
+            if o[0] != "elt" or o[1] not in comp or slot.get(j, o[1]) != o[1] or any(e == o[1] and jj != j for jj, e in slot.items()):
+                return "op %d uf[%d]: answered %s, expected a stored element, one per index (seen so far %s)" % (k, i, o, slot)
+            slot[j] = o[1]
+            continue
         if o != want:
             return "op %d %s: answered %s, the partition semantics says %s" % (k, op, o, want)
     return None
@@ -404,7 +434,8 @@ def oracle_pq(ops, obs):
                 return "op %d push answered %s" % (k, o)
         elif op[0] in ("pop", "get"):
             if not pending:
-                if o != ["indexerror"]:
+                # nothing to hand out: an exception of any class, or no item
+                if o[0] not in ("raised", "noitem"):
                     return "op %d pop on the empty queue answered %s" % (k, o)
             else:
                 if o[0] != "item":
@@ -420,16 +451,12 @@ def oracle_pq(ops, obs):
                 return "op %d empty answered %s with %d pending" % (k, o, len(pending))
         elif op[0] == "front":
             if not pending:
-                if o != ["indexerror"]:
+                if o[0] not in ("raised", "noitem"):
                     return "op %d front on the empty queue answered %s" % (k, o)
             elif o[0] != "item" or (o[1], val(o[2])) not in pending or val(o[2]) != min(p for _, p in pending):
                 return "op %d front answered %s, not a pending minimum" % (k, o)
-        try:
-            same = sorted((x, val(p)) for x, p in data) == sorted(pending)
-        except TypeError:
-            same = False
-        if not same:
-            return "op %d: queue content %s is not the pending multiset %s" % (k, data, pending)
+        # (the `data` attribute is not constrained by the text - lazy deletion, extra bookkeeping entries ... are free;
+        #  "each pushed item exactly once" is checked on what pop/get hand out)
     return None
 
 
@@ -530,7 +557,7 @@ def run(ctx):
             ctx.count("uf large (>256 elements)")
         for op, ob in zip(c["ops"], o):
             ctx.count("uf op " + op[0])
-            if ob[0] in ("valueerror", "indexerror", "other"):
+            if ob[0] in ("raised", "other"):
                 ctx.count("uf answer " + ob[0])
         ctx.case_seen(["uf", c["elts"], c.get("init"), c["ops"]], nontrivial=any(op[0] == "union" and op[1] != op[2] for op in c["ops"]),
                       sample={"uf_history": c["ops"][:12], "elements": c["elts"], "observed": o[:12]})
